@@ -112,6 +112,11 @@ Proof.
   rewrite K in E. assert (F : Cmul y C0 ==c C0) by ring. rewrite F in E. destruct E as [E _]. cbn in E. discriminate E.
 Qed.
 
+Lemma wye_core_rx r x g b rr xr :
+  fst (fst (fst (fst (fst (wye_delta_core r x g b rr xr))))) = re (Cdiv (wd_zs r x g b rr xr) (Cinv (mkC g b))) /\
+  snd (fst (fst (fst (fst (wye_delta_core r x g b rr xr))))) = im (Cdiv (wd_zs r x g b rr xr) (Cinv (mkC g b))).
+Proof. cbv beta zeta delta [wye_delta_core wd_zs fst snd]. split; reflexivity. Qed.
+
 Lemma trafo_t_chain : forall sn t o vnh vnl shift bh bl row e vf vt,
   trafo_branch sn true t o vnh vnl shift bh bl = Ok row -> t_in t = true ->
   ~ (fst (trafo_gb sn t o vnl bl) == 0 /\ snd (trafo_gb sn t o vnl bl) == 0) ->
@@ -149,11 +154,13 @@ Proof.
   { intro K. apply Es. rewrite Ezs, K. ring. }
   (* the series impedance of the row, zab = zs / zc, is not zero *)
   assert (Hzab : ~ r' * r' + x' * x' == 0).
-  { unfold wye_delta_core in Ec. fold za zb in Ec.
-    set (zc := Cinv (mkC g b)) in *. set (zs := Cadd (Cadd (Cmul za zb) (Cmul za zc)) (Cmul zb zc)) in *.
-    injection Ec as <- <- _ _ _ _.
-    apply (proj1 (Cnz_norm (Cdiv zs zc))). intro K.
-    apply Es. unfold wd_zs. fold za zb zc zs.
+  { assert (Er : r' = re (Cdiv (wd_zs r x g b (t_rr t) (t_xr t)) (Cinv (mkC g b))) /\
+                 x' = im (Cdiv (wd_zs r x g b (t_rr t) (t_xr t)) (Cinv (mkC g b)))).
+    { pose proof (wye_core_rx r x g b (t_rr t) (t_xr t)) as W. rewrite Ec in W. cbn [fst snd] in W. exact W. }
+    destruct Er as [-> ->]. clear Ec Ezs.
+    generalize dependent (wd_zs r x g b (t_rr t) (t_xr t)). intros zs Es.
+    generalize dependent (Cinv (mkC g b)). intros zc Hzc.
+    apply (proj1 (Cnz_norm (Cdiv zs zc))). intro K. apply Es.
     assert (E : zs ==c Cmul (Cdiv zs zc) zc) by (field; exact Hzc). rewrite E, K. ring. }
   apply (t_model_row_flows (mkB r' x' g' b' 0 0 ga ba (nominal_ratio vnh vnl bh bl) shift (t_in t) _) e vf vt sn r x g b (t_rr t) (t_xr t));
     cbn [b_r b_x b_g b_b b_ra b_xa b_ga b_ba b_tap b_shift b_stat b_rate]; try assumption; try reflexivity.
